@@ -113,6 +113,70 @@ sbj_h!(k_subject_counts__on_subscribe_on_unsubscribe, false, |sbj, l1, l2| {
   s2.unsubscribe();
   assert!(cnt.is(&[0x701, 0x702, 0x801, 0x800]), "subject.counts: on_subscribe/on_unsubscribe did not report the observer count after each change");
 });
+
+
+// three observers over time, never more than two at once: A and B join, A leaves, C joins.  B (which never left) and C must
+// both keep receiving; the registration of C must not displace B.
+sbj_h!(k_subject_rejoin__first_leaves_third_joins, false, |sbj, l1, l2| {
+  let l3 = Log::new();
+  let s1 = attach(&sbj, l1);
+  let _s2 = attach(&sbj, l2);
+  s1.unsubscribe();
+  let s3 = attach(&sbj, l3);
+  assert!(held(&sbj) == 2, "subject.register: a new observer displaced one that is still subscribed");
+  let x: u8 = kani::any();
+  sbj.next(x);
+  assert!(l1.len() == 0, "subject.unsubscribe: an unsubscribed observer received a later event");
+  assert!(l2.is(&[EV_N | x as u32]), "subject.next: an observer that never left lost an item after another observer joined");
+  assert!(l3.is(&[EV_N | x as u32]), "subject.next: the new observer did not get the item");
+  s3.unsubscribe();
+  assert!(held(&sbj) == 1, "subject.drops: unsubscribing the newest observer removed someone else (or nobody)");
+});
+
+// ---- single-observer variants (cheap; the two-observer variants above run in the thorough tier) ---------------------------------
+sbj_h!(k_subject1_next_then_complete, false, |sbj, l1, l2| {
+  let s1 = attach(&sbj, l1);
+  assert!(held(&sbj) == 1, "subject.register: the subscribed observer is not held");
+  let x: u8 = kani::any();
+  sbj.next(x);
+  sbj.complete();
+  assert!(held(&sbj) == 0, "subject.drops: observer still held after complete");
+  sbj.next(kani::any());
+  sbj.error(err(1));
+  assert!(l1.is(&[EV_N | x as u32, EV_C]), "subject.complete: trace differs (item or terminal not exactly once, or events after the terminal)");
+  assert!(!s1.is_subscribed(), "subject.complete: subscription still reports subscribed");
+});
+sbj_h!(k_subject1_error, false, |sbj, l1, l2| {
+  let _s1 = attach(&sbj, l1);
+  let id: u8 = kani::any();
+  sbj.error(err(id));
+  assert!(held(&sbj) == 0, "subject.drops: observer still held after error");
+  sbj.next(kani::any());
+  assert!(l1.is(&[EV_E | id as u32]), "subject.error: the observer did not get the error exactly once as its last event");
+});
+sbj_h!(k_subject1_unsubscribe, false, |sbj, l1, l2| {
+  let s1 = attach(&sbj, l1);
+  let x: u8 = kani::any();
+  sbj.next(x);
+  s1.unsubscribe();
+  assert!(held(&sbj) == 0, "subject.drops: the subject still holds an observer that unsubscribed");
+  sbj.next(kani::any());
+  sbj.complete();
+  s1.unsubscribe();
+  assert!(l1.is(&[EV_N | x as u32]), "subject.unsubscribe: an unsubscribed observer received a later event");
+});
+sbj_h!(k_subject1_resubscribe, false, |sbj, l1, l2| {
+  // subscribe, leave, subscribe again: the second registration must be independent of the first
+  let s1 = attach(&sbj, l1);
+  s1.unsubscribe();
+  let _s2 = attach(&sbj, l2);
+  assert!(held(&sbj) == 1, "subject.register: re-subscription not held exactly once");
+  let x: u8 = kani::any();
+  sbj.next(x);
+  assert!(l1.len() == 0, "subject.unsubscribe: an unsubscribed observer received a later event");
+  assert!(l2.is(&[EV_N | x as u32]), "subject.next: the re-subscribed observer did not get the item exactly once");
+});
+
 // re-entrancy: an observer unsubscribes itself from inside its own next callback while the subject is broadcasting
 #[kani::proof]
 #[kani::unwind(4)]
